@@ -200,7 +200,9 @@ PROPS = {
         verus=[('u_units', [r'^lemma_unit_dims_bounded_chunk_'])],
         kani=[dict(harness='k_convert_guard', klass='complete', schema=None, family=None, target='Unit::convert_to', timeout=300),
               dict(harness='k_dims_add_sub', klass='complete', schema=['i8'] * 14, family=None, target='UnitDimensions +/-'),
-              dict(harness='k_number_add_sub', klass='complete', schema=None, family=None, target='Number +/-', timeout=600)],
+              dict(harness='k_number_add_sub', klass='complete', schema=None, family=None, target='Number +/-', timeout=600),
+              dict(harness='k_convert_offsets', klass='bounded', bound='both scales fixed to 1.0 (the full formula with symbolic scales does not finish: float division)',
+                   schema=None, family=None, target='Unit::convert_to formula, offset part', timeout=900)],
         witness=None,
         design_ref='DESIGN.md section 4, C16',
         level_text=('Proof of the guards and the dimension bookkeeping: Unit::convert_to succeeds exactly when both units have the same '
@@ -208,8 +210,9 @@ PROPS = {
                     'component-wise sum/difference without overflow for exponents in [-63,63] (Kani), and every database unit has exponents '
                     'in [-8,8] (Verus by(compute) over the extracted table); Number + and - keep the common unit, treat a unit-less operand '
                     'as neutral and fail exactly for two different units (Kani, all moderate finite f64 x {none,m,s}).'),
-        not_decided=('"equals the physical conversion" and "converting back returns the original within rounding" (floating-point error '
-                     'analysis: the formula harness does not finish in CBMC and Verus cannot discharge float preconditions); Mul/Div results '
+        not_decided=('"equals the physical conversion" for general scales and "converting back returns the original within rounding" (floating-point error '
+                     'analysis: the formula harness with symbolic scales does not finish in CBMC (600 s) and Verus cannot discharge float preconditions; '
+                     'with both scales fixed to 1.0 the offset part is checked bit-for-bit, as a bounded stand-in); Mul/Div results '
                      '(match_units iterates the lazy_static HashMap with closures); approx_eq symmetry (float division, did not finish in 500 s).'),
         technique='contract-based deductive verification: Kani complete symbolic harnesses + Verus by(compute) table lemma',
     ),
